@@ -548,8 +548,12 @@ func declareOpaque(P *Program, db *SpecDB, ti *TypeInfo) {
 	for _, od := range db.Opaque {
 		te := od.T
 		imm := false
+		hnd := false
 		if te.Kind == "immutable" {
 			imm = true
+			te = te.V
+		} else if te.Kind == "handle" {
+			hnd = true
 			te = te.V
 		}
 		gt, err := e.resolveGoType(te, od.PkgPath, od.Imports)
@@ -564,6 +568,10 @@ func declareOpaque(P *Program, db *SpecDB, ti *TypeInfo) {
 		}
 		if imm {
 			db.Immutable[typeStr(gt)] = true
+			continue
+		}
+		if hnd {
+			db.Handles[typeStr(gt)] = true
 			continue
 		}
 		if od.SameAs != nil {
